@@ -309,7 +309,20 @@ pub fn cfgs_c15() -> Vec<SrvCfg> {
         d.push(Act::Announce { src: crate::srv::NEIGHBOURS_FROM + bit, ih: 0, port: 5, implied: None, tok: Tok::Of(0) });
     }
     d.push(Act::PutImm { src: 0, v: 0, tok: Tok::Fresh });
-    vec![base("c15-tokens", a, p), base("c15-writes-only", b, p), base("c15-guesses", c, p), base("c15-ip-neighbours", d, p)]
+    // a sender without a token of its own probes an item that is stored: stale seq, failing
+    // cas, the same item again - the answer is 203, never the 301/302 that would tell it which
+    // seq the node holds
+    let mut e = vec![
+        Act::Get { src: 0, target: 7, seq: None },
+        Act::Get { src: 2, target: 7, seq: None },
+        Act::PutMut { src: 0, key: 2, salt: 0, seq: 5, val: 0, cas: Cas::None, sig: Sig::Valid, tok: Tok::Fresh },
+    ];
+    for (src, tok) in [(3u8, Tok::OtherIp), (3, Tok::Guess(0)), (3, Tok::Empty), (2, Tok::Foreign), (2, Tok::Mutated(1)), (2, Tok::Fresh)] {
+        e.push(Act::PutMut { src, key: 2, salt: 0, seq: 3, val: 1, cas: Cas::None, sig: Sig::Valid, tok });
+        e.push(Act::PutMut { src, key: 2, salt: 0, seq: 9, val: 1, cas: Cas::Mismatch, sig: Sig::Valid, tok });
+    }
+    e.push(Act::PutMut { src: 3, key: 2, salt: 0, seq: 5, val: 0, cas: Cas::None, sig: Sig::Valid, tok: Tok::OtherIp });
+    vec![base("c15-tokens", a, p), base("c15-writes-only", b, p), base("c15-guesses", c, p), base("c15-ip-neighbours", d, p), base("c15-unauthorised-probes", e, p)]
 }
 
 pub fn cfgs_c20() -> Vec<SrvCfg> {
@@ -483,6 +496,7 @@ pub fn run_cfgs_bound(cfgs: Vec<SrvCfg>, depth: usize, max_states: usize, replay
             "c15-writes-only" => depth + 4,
             // every neighbour right after the token was issued, and after one more request
             "c15-ip-neighbours" => 2,
+            "c15-unauthorised-probes" => 3,
             _ => depth,
         };
         let bfs = Bfs { max_depth: depth, max_states, threads: super::cores(), collect_paths: replay_budget > 0 };
